@@ -7,7 +7,7 @@
 //! mount); the direct oracles evaluate the property's own clauses on what the real code did.
 //! `conc` ops run 2–4 threads on one real `Registry`; the direct oracle searches for a sequential
 //! order of the SAME implementation that gives the observed outcome (linearizability).
-use repe::{ErrorCode, Message, QueryFormat, Registry, RegistryError, Router, WithContext};
+use repe::{ErrorCode, Message, Registry, RegistryError, Router, WithContext};
 use repe_verif_harness::*;
 use serde_json::{json, Map, Value};
 use std::collections::{BTreeMap, HashSet};
@@ -300,10 +300,22 @@ fn o_strip(prefixes: &[String], path: &str) -> Option<String> {
     None
 }
 
+/// the mounted prefix (as given) that `Router::get` must select for `lookup`: the first, in registration order,
+/// whose normalised form is empty, equals the path, or is followed by '/' in it
+fn o_choose(prefixes: &[String], lookup: &str) -> Option<String> {
+    prefixes.iter().find(|p| o_strip(std::slice::from_ref(*p), lookup).is_some()).cloned()
+}
+
+fn pass_through<'a>(req: &'a Message, next: repe::Next<'a>) -> Result<Message, repe::RepeError> {
+    next.run(req)
+}
+
 // ------------------------------------------------------------------------------------------
 // the system under test + bookkeeping
 // ------------------------------------------------------------------------------------------
 type Log = Arc<Mutex<Vec<(u64, Value)>>>;
+/// calls a re-entrant callable made into the registry: (pointer, value, result of the nested register_value)
+type Nested = Arc<Mutex<Vec<(String, Value, RRes)>>>;
 
 #[derive(Clone, Debug, PartialEq)]
 enum OpR {
@@ -372,6 +384,9 @@ fn rres(r: Result<Value, RegistryError>) -> RRes {
 
 fn show_rres(r: &RRes) -> String {
     match r {
+        // the property does not say what a request answers when the callable panics: one neutral class
+        Err((n, _)) if n == "Panic" => "unspecified".to_string(),
+        Err((n, c)) if n == "Execution" && (1_000_001..=1_000_003).contains(c) => "unspecified".to_string(),
         Ok(v) => format!("ok {}", render(v)),
         Err((n, c)) => format!("err {} {}", n, c),
     }
@@ -379,6 +394,7 @@ fn show_rres(r: &RRes) -> String {
 
 fn res_word(r: &RRes) -> String {
     match r {
+        Err((n, _)) if n == "Panic" => "unspecified".to_string(),
         Ok(v) => format!("ok:{}", render(v)),
         Err((n, c)) => format!("err:{}:{}", n, c),
     }
@@ -396,6 +412,9 @@ struct Snapshot {
 struct Sys {
     reg: Arc<Registry>,
     log: Log,
+    nested: Nested,
+    /// use the OTHER of two twin entry points (`dispatch` / `dispatch_with_ctx`) than the op line fixes
+    flip: bool,
     /// successful `regf` ops: (path as given, tag, fail)
     regfs: Vec<(String, u64, Option<u32>)>,
     /// oracle bookkeeping: canonical keys registered, by the independent helpers
@@ -404,7 +423,7 @@ struct Sys {
 
 impl Sys {
     fn new() -> Sys {
-        Sys { reg: Arc::new(Registry::new()), log: Arc::new(Mutex::new(Vec::new())), regfs: vec![], okeys: BTreeMap::new() }
+        Sys { reg: Arc::new(Registry::new()), log: Arc::new(Mutex::new(Vec::new())), nested: Arc::new(Mutex::new(Vec::new())), flip: false, regfs: vec![], okeys: BTreeMap::new() }
     }
     fn from_snapshot(s: &Snapshot) -> Sys {
         let mut sys = Sys::new();
@@ -424,32 +443,48 @@ impl Sys {
     fn log_len(&self) -> usize {
         self.log.lock().unwrap().len()
     }
-    fn register_fn(reg: &Registry, log: &Log, path: &str, tag: u64, fail: Option<u32>) -> Result<(), RegistryError> {
-        let log = Arc::clone(log);
-        if tag % 3 == 2 {
-            // the other two registration forms: a context-taking callable, through `register_function_arc`
-            let f = WithContext(move |_ctx: &repe::CallContext, params: Option<Value>| {
-                let body = params.unwrap_or(Value::Null);
-                log.lock().unwrap().push((tag, body.clone()));
-                match fail {
-                    Some(c) => Err((ErrorCode::try_from(c).unwrap_or(ErrorCode::ApplicationErrorBase), "callable failed".to_string())),
-                    None => Ok(json!({"called": tag, "body": body})),
-                }
-            });
-            return reg.register_function_arc(path, Arc::new(f));
-        }
-        reg.register_function(path, move |params: Option<Value>| {
-            let body = params.unwrap_or(Value::Null);
-            log.lock().unwrap().push((tag, body.clone()));
-            match fail {
-                Some(c) => Err((ErrorCode::try_from(c).unwrap_or(ErrorCode::ApplicationErrorBase), "callable failed".to_string())),
-                None => Ok(json!({"called": tag, "body": body})),
+    /// What the callable registered with (`tag`, `fail`) does.  `fail`: None = echo; 4/9/4096 = `Err((code, _))`;
+    /// 1000001/2/3 = panic with a `String` / `&'static str` / non-string payload; 2000000 = slow (sleeps) then echo;
+    /// 3000000 = calls back into the SAME registry (a write, then a read) then echo.  The special behaviours only
+    /// run for a non-null body, so the harness's own probe calls (null body) have no side effects.
+    fn callable_body(reg: &std::sync::Weak<Registry>, log: &Log, nested: &Nested, tag: u64, fail: Option<u32>, params: Option<Value>) -> Result<Value, (ErrorCode, String)> {
+        let body = params.unwrap_or(Value::Null);
+        log.lock().unwrap().push((tag, body.clone()));
+        let echo = json!({"called": tag, "body": body});
+        match fail {
+            None => Ok(echo),
+            Some(c) if c < 1_000_000 => Err((ErrorCode::try_from(c).unwrap_or(ErrorCode::ApplicationErrorBase), "callable failed".to_string())),
+            Some(_) if body.is_null() => Ok(echo),
+            Some(1_000_001) => panic!("{}", format!("callable {tag} panics")),
+            Some(1_000_002) => panic!("callable panics"),
+            Some(1_000_003) => std::panic::panic_any(7u32),
+            Some(2_000_000) => {
+                std::thread::sleep(std::time::Duration::from_micros(40));
+                Ok(echo)
             }
-        })
+            Some(_) => {
+                if let Some(reg) = reg.upgrade() {
+                    let ptr = format!("/re~1entered/{tag}");
+                    let r = rres(reg.register_value(&ptr, body.clone()).map(|_| Value::Null));
+                    let _ = reg.dispatch("/re~1entered", None);
+                    nested.lock().unwrap().push((ptr, body.clone(), r));
+                }
+                Ok(echo)
+            }
+        }
+    }
+    fn register_fn(reg: &Arc<Registry>, log: &Log, nested: &Nested, path: &str, tag: u64, fail: Option<u32>) -> Result<(), RegistryError> {
+        let (log, nested, weak) = (Arc::clone(log), Arc::clone(nested), Arc::downgrade(reg));
+        match tag % 3 {
+            // the three registration forms: plain closure, context-taking callable, pre-built Arc
+            2 => reg.register_function_arc(path, Arc::new(WithContext(move |_ctx: &repe::CallContext, params: Option<Value>| Self::callable_body(&weak, &log, &nested, tag, fail, params)))),
+            1 => reg.register_function(path, WithContext(move |_ctx: &repe::CallContext, params: Option<Value>| Self::callable_body(&weak, &log, &nested, tag, fail, params))),
+            _ => reg.register_function(path, move |params: Option<Value>| Self::callable_body(&weak, &log, &nested, tag, fail, params)),
+        }
     }
     /// Execute one API op on the real registry (no oracle).
     fn apply(&mut self, op: &OpR) -> RRes {
-        let r = Self::apply_shared(&self.reg, &self.log, op);
+        let r = Self::apply_shared(&self.reg, &self.log, &self.nested, self.flip, op);
         if let (OpR::RegF(p, t, f), Ok(_)) = (op, &r) {
             self.regfs.push((p.clone(), *t, *f));
             if let Some(toks) = o_reg_parse(p) {
@@ -458,7 +493,14 @@ impl Sys {
         }
         r
     }
-    fn apply_shared(reg: &Registry, log: &Log, op: &OpR) -> RRes {
+    fn apply_shared(reg: &Arc<Registry>, log: &Log, nested: &Nested, flip: bool, op: &OpR) -> RRes {
+        // a panicking callable unwinds through `dispatch`: caught here, reported as its own class
+        match catch(|| Self::apply_inner(reg, log, nested, flip, op)) {
+            Ok(r) => r,
+            Err(_) => Err(("Panic".to_string(), 0)),
+        }
+    }
+    fn apply_inner(reg: &Arc<Registry>, log: &Log, nested: &Nested, flip: bool, op: &OpR) -> RRes {
         let unit = |r: Result<(), RegistryError>| rres(r.map(|_| Value::Null));
         match op {
             OpR::SetRoot(v) => {
@@ -466,11 +508,19 @@ impl Sys {
                 Ok(Value::Null)
             }
             OpR::RegV(p, v) => unit(reg.register_value(p, v.clone())),
-            OpR::RegF(p, t, f) => unit(Self::register_fn(reg, log, p, *t, *f)),
+            OpR::RegF(p, t, f) => unit(Self::register_fn(reg, log, nested, p, *t, *f)),
             OpR::MergeRoot(v) => unit(reg.merge_root(v.as_object().cloned().unwrap_or_default())),
             OpR::MergeAt(p, v) => unit(reg.merge_at(p, v.as_object().cloned().unwrap_or_default())),
             OpR::Read(p) => rres(reg.read_value(p)),
-            OpR::Disp(p, b) => rres(reg.dispatch(p, b.clone())),
+            OpR::Disp(p, b) => {
+                // the two public spellings of the same call: `dispatch` and `dispatch_with_ctx` with a context whose
+                // `method()` is NOT the pointer (a router that stripped a prefix); which one is fixed by the op itself
+                if ((p.len() + b.is_some() as usize) % 2 == 0) != flip {
+                    rres(reg.dispatch(p, b.clone()))
+                } else {
+                    rres(reg.dispatch_with_ctx(p, b.clone(), &repe::CallContext::detached("/some/other/method")))
+                }
+            }
         }
     }
     /// Observed function table {canonical key: tag | [tag, fail]}: every successfully registered path
@@ -535,6 +585,8 @@ struct Ctx {
     router: Option<Router>,
     /// op lines since the last reset (the replay of an oracle failure)
     trail: Vec<String>,
+    /// derived (line, observation) pairs to emit after the current op
+    pending_lines: Vec<(String, String)>,
 }
 
 fn is_write_ok(v: &Value) -> bool {
@@ -606,7 +658,7 @@ fn apply_checked(out: &mut Out, sys: &mut Sys, op: &OpR, trail: &[String], check
                     } else {
                         out.count("oracle.call_once");
                     }
-                    if after_root != before.root {
+                    if after_root != before.root && sys.nested.lock().unwrap().is_empty() {
                         fail(out, "registry.call.mutated", format!("a call to {} changed the tree", pword(p)));
                     }
                 }
@@ -801,24 +853,41 @@ fn o_body(fmt: u16, bytes: &[u8]) -> Result<Option<Value>, ()> {
     }
 }
 
-fn mount_request(ctx: &mut Ctx, idx: &str, path: &str, fmt: u16, bytes: &[u8]) -> Option<Result<Value, u32>> {
+/// One request through the router mount.  `lookup` selects the handler (`Router::get`); the message carries
+/// `query` (normally the same text; `None` = bytes that are not UTF-8), the header fields of `hdr`
+/// (`id:notify:query_format`, all ignored by the handler) and the body; `via` picks the handler entry point.
+fn mount_request(ctx: &mut Ctx, lookup: &str, query: Option<&str>, via: u8, hdr: &str, fmt: u16, bytes: &[u8]) -> Option<Result<Value, u32>> {
     let router = ctx.router.as_ref().expect("router configured");
-    let handler = router.get(path)?;
-    let id: u64 = idx.parse().unwrap_or(0);
-    let req = Message::builder()
-        .id(id)
-        .query_str(path)
-        .query_format(QueryFormat::JsonPointer)
+    let handler = router.get(lookup)?;
+    let h: Vec<u64> = hdr.split(':').map(|x| x.parse().expect("header field")).collect();
+    let qbytes: Vec<u8> = match query {
+        Some(q) => q.as_bytes().to_vec(),
+        None => vec![0x2f, 0xff, 0xfe],
+    };
+    let mut req = Message::builder()
+        .id(h[0])
+        .query_bytes(qbytes)
+        .query_format_code(h[2] as u16)
         .body_bytes(bytes.to_vec())
         .body_format_code(fmt)
         .build();
-    let resp = if id % 2 == 0 {
-        handler.handle(&req)
-    } else {
-        handler.handle_with_ctx(&req, &repe::CallContext::detached(path))
-    }
-    .expect("registry handler returns a message");
-    Some(if resp.header.ec == 0 {
+    req.header.notify = h[1] as u8;
+    let cx = repe::CallContext::detached(lookup);
+    // a panicking callable unwinds through the handler: caught, reported as the neutral class (code u32::MAX)
+    let resp = match catch(|| match via {
+        0 => handler.handle(&req),
+        1 => handler.handle_with_ctx(&req, &cx),
+        _ => {
+            let wire = req.to_vec();
+            let view = repe::MessageView::from_slice(&wire).expect("view of a built message");
+            handler.handle_view(&view, &cx)
+        }
+    }) {
+        Ok(r) => r.expect("registry handler returns a message"),
+        Err(_) => return Some(Err(u32::MAX)),
+    };
+    // a success carries a JSON body; an error response (UTF-8 text) may carry ANY code the callable chose, 0 included
+    Some(if resp.header.ec == 0 && resp.header.body_format == 2 {
         Ok(serde_json::from_slice::<Value>(&resp.body).expect("json response body"))
     } else {
         Err(resp.header.ec)
@@ -839,10 +908,18 @@ fn exec_seq(out: &mut Out, ctx: &mut Ctx, line: &str) -> Option<(String, bool)> 
         }
         "router" => {
             ctx.trail.push(line.to_string());
-            ctx.prefixes = w[2..].iter().map(|p| unpword(p)).collect();
+            // router i <mw|bare> <with|reg> P…: pass-through middleware or none; builder or in-place registrar
+            ctx.prefixes = w[4..].iter().map(|p| unpword(p)).collect();
             let mut r = Router::new();
+            if w[2] == "mw" {
+                r = r.with_middleware(pass_through);
+            }
             for p in &ctx.prefixes {
-                r = r.with_registry(p, Arc::clone(&ctx.sys.reg));
+                if w[3] == "with" {
+                    r = r.with_registry(p, Arc::clone(&ctx.sys.reg));
+                } else {
+                    let _ = r.register_registry(p, Arc::clone(&ctx.sys.reg));
+                }
             }
             ctx.router = Some(r);
             None
@@ -851,19 +928,39 @@ fn exec_seq(out: &mut Out, ctx: &mut Ctx, line: &str) -> Option<(String, bool)> 
         "req" => {
             // req i <path P> <format code> <body hex|-> <what the dependency decoder gives: J | ! | ->
             ctx.trail.push(line.to_string());
-            let path = unpword(w[2]);
-            let fmt: u16 = w[3].parse().expect("format code");
-            let bytes = unhex(w[4]).expect("body hex");
+            let lookup = unpword(w[2]);
+            let query: Option<String> = match w[3] {
+                "=" => Some(lookup.clone()),
+                "!" => None,
+                q => Some(unpword(q)),
+            };
+            let via: u8 = w[4].parse().expect("via");
+            let fmt: u16 = w[6].parse().expect("format code");
+            let bytes = unhex(w[7]).expect("body hex");
             let body = o_body(fmt, &bytes);
+            {
+                // the public `Registry::decode_body` on the same bytes: no body / the value / InvalidBody
+                let m = Message::builder().body_bytes(bytes.clone()).body_format_code(fmt).build();
+                let got = Registry::decode_body(&m).map_err(|e| e.code() as u32);
+                if got != body.clone().map_err(|_| 4u32) {
+                    out.oracle_fail("registry.decode_body", &format!("decode_body(format {}, {} bytes) = {:?}, expected {:?}", fmt, bytes.len(), got, body), &[line.to_string()]);
+                }
+            }
             let before = ctx.sys.snapshot();
-            let r = mount_request(ctx, idx, &path, fmt, &bytes);
+            let r = mount_request(ctx, &lookup, query.as_deref(), via, w[5], fmt, &bytes);
+            out.count(&format!("req.via{}", via));
+            // what the handler sees as the path: the message's query, "" when it is not UTF-8
+            let path = query.clone().unwrap_or_default();
+            // independent routing expectation: the mount is chosen by the lookup path, the pointer by the query
+            let chosen = o_choose(&ctx.prefixes, &lookup);
             out.count(&format!("req.fmt{}.{}", if fmt > 3 { "Unknown".to_string() } else { fmt.to_string() }, match &body { Ok(None) => "empty", Ok(Some(_)) => "value", Err(()) => "invalid" }));
             let trail = ctx.trail.clone();
             // oracle: mounting only strips the prefix; the request is the direct dispatch of the decoded body
-            let want_ptr = o_strip(&ctx.prefixes, &path);
+            let want_ptr = chosen.as_ref().map(|pre| o_strip(std::slice::from_ref(pre), &path));
             match (&r, &want_ptr) {
                 (None, None) => out.count("req.unrouted"),
-                (Some(got), Some(ptr)) => match &body {
+                (Some(Err(6)), Some(None)) => out.count("req.not_below_prefix"),
+                (Some(got), Some(Some(ptr))) => match &body {
                     Err(()) => {
                         let after = ctx.sys.snapshot();
                         if got != &Err(4) || after.root != before.root || after.log != before.log {
@@ -885,7 +982,7 @@ fn exec_seq(out: &mut Out, ctx: &mut Ctx, line: &str) -> Option<(String, bool)> 
                     Ok(Some(v)) => {
                         // replay the same body-bearing request directly on an equal registry
                         let mut twin = Sys::from_snapshot(&before);
-                        let direct = twin.apply(&OpR::Disp(ptr.clone(), Some(v.clone()))).map_err(|e| e.1);
+                        let direct = twin.apply(&OpR::Disp(ptr.clone(), Some(v.clone()))).map_err(|e| if e.0 == "Panic" { u32::MAX } else { e.1 });
                         let same_state = twin.root() == ctx.sys.root() && twin.log.lock().unwrap().clone() == ctx.sys.log.lock().unwrap().clone();
                         if &direct != got || !same_state {
                             out.oracle_fail("registry.mount.write_differs", &format!("path {} under prefixes {:?}: mount gave {:?}, direct dispatch({}) gave {:?}", pword(&path), ctx.prefixes, got, pword(ptr), direct), &trail);
@@ -893,14 +990,20 @@ fn exec_seq(out: &mut Out, ctx: &mut Ctx, line: &str) -> Option<(String, bool)> 
                         out.count("oracle.mount_write");
                     }
                 },
-                (Some(Err(6)), None) => out.count("req.not_below_prefix"),
                 (got, want) => out.oracle_fail("registry.mount.routing", &format!("path {} under prefixes {:?}: mount gave {:?}, stripping gives {:?}", pword(&path), ctx.prefixes, got, want), &trail),
             }
             let s = match &r {
                 None => format!("{} none", idx),
                 Some(Ok(v)) => format!("{} ok {} c{}", idx, render(v), ctx.sys.log_len()),
+                Some(Err(c)) if *c == u32::MAX || (1_000_001..=1_000_003).contains(c) => format!("{} unspecified c{}", idx, ctx.sys.log_len()),
                 Some(Err(c)) => format!("{} err {} c{}", idx, c, ctx.sys.log_len()),
             };
+            // a re-entrant callable reached through the mount
+            let nested: Vec<_> = ctx.sys.nested.lock().unwrap().drain(..).collect();
+            for (j, (ptr, v, nr)) in nested.iter().enumerate() {
+                out.count("call.reentered");
+                ctx.pending_lines.push((format!("nregv {}.{} {} {}", idx, j + 1, pword(ptr), render(v)), format!("{}.{} {}", idx, j + 1, obs(&ctx.sys, nr))));
+            }
             Some((s, matches!(r, Some(Ok(_)))))
         }
         "jp" => {
@@ -922,15 +1025,16 @@ fn exec_seq(out: &mut Out, ctx: &mut Ctx, line: &str) -> Option<(String, bool)> 
             let v = unjword(w[2]);
             let p = unpword(w[3]);
             let r = repe::eval_json_pointer(&v, &p);
-            // oracle: agrees with the registry's own resolution on pointers both accept as the same token list
-            if p.starts_with('/') && p != "/" && o_parse(&p).is_some() {
-                let reg = Registry::new();
-                reg.set_root(v.clone());
-                let via = reg.read_value(&p).ok();
-                if via.as_ref() != r {
-                    out.oracle_fail("registry.json_pointer.evaluate", &format!("evaluate({}, {}) = {:?} but the registry reads {:?}", render(&v), pword(&p), r.map(render), via.as_ref().map(render)), &[line.to_string()]);
+            // oracle (independent of the crate): on a well-formed pointer `evaluate` finds what the plain document
+            // holds at the RFC 6901 tokens (object key, or array index read as a usize), else nothing
+            if p.starts_with('/') && p != "/" {
+                if let Some(toks) = o_parse(&p) {
+                    let want = o_resolve(&v, &toks).ok();
+                    if want != r {
+                        out.oracle_fail("registry.json_pointer.evaluate", &format!("evaluate({}, {}) = {:?} but the document holds {:?} there", render(&v), pword(&p), r.map(render), want.map(render)), &[line.to_string()]);
+                    }
+                    out.count("oracle.jpe_vs_document");
                 }
-                out.count("oracle.jpe_vs_registry");
             }
             Some((match r { Some(x) => format!("{} some {}", idx, render(x)), None => format!("{} none", idx) }, r.is_some()))
         }
@@ -943,7 +1047,25 @@ fn exec_seq(out: &mut Out, ctx: &mut Ctx, line: &str) -> Option<(String, bool)> 
             assert_eq!(n + 1, w.len(), "trailing words in {line}");
             ctx.trail.push(line.to_string());
             let trail = ctx.trail.clone();
+            let before = ctx.sys.snapshot();
             let r = apply_checked(out, &mut ctx.sys, &op, &trail, true);
+            // the long-lived registry must answer as a FRESH registry in the same abstract state does (no hidden
+            // state survives earlier calls, errors included), and the twin entry point must agree
+            {
+                let mut twin = Sys::from_snapshot(&before);
+                twin.flip = true;
+                let r2 = twin.apply(&op);
+                if r2 != r || twin.root() != ctx.sys.root() || *twin.log.lock().unwrap() != *ctx.sys.log.lock().unwrap() {
+                    out.oracle_fail("registry.hidden_state", &format!("{} answered {} on the registry used so far but {} on a fresh registry rebuilt in the same state (other entry-point twin)", op.words(), show_rres(&r), show_rres(&r2)), &trail);
+                }
+                out.count("oracle.fresh_twin");
+            }
+            // calls a re-entrant callable made into the registry while it ran: reported as their own (derived) op lines
+            let nested: Vec<_> = ctx.sys.nested.lock().unwrap().drain(..).collect();
+            for (j, (ptr, v, nr)) in nested.iter().enumerate() {
+                out.count("call.reentered");
+                ctx.pending_lines.push((format!("nregv {}.{} {} {}", idx, j + 1, pword(ptr), render(v)), format!("{}.{} {}", idx, j + 1, obs(&ctx.sys, nr))));
+            }
             let kind = match (&op, &r) {
                 (OpR::Disp(_, Some(_)), Ok(v)) if is_write_ok(v) => "write_ok",
                 (OpR::Disp(_, Some(_)), Ok(_)) => "call_ok",
@@ -1148,7 +1270,7 @@ fn wait_until(f: impl Fn() -> bool) {
 /// Returns the distinct outcomes with their frequencies.
 fn run_conc_many(sc: &Scenario, iters: u64) -> BTreeMap<String, (Outcome, u64)> {
     let n = sc.threads.len();
-    let slot: Mutex<Option<(Arc<Registry>, Log)>> = Mutex::new(None);
+    let slot: Mutex<Option<(Arc<Registry>, Log, Nested)>> = Mutex::new(None);
     let gen = AtomicUsize::new(0); // iteration published by the main thread
     let arrived = AtomicUsize::new(0);
     let done = AtomicUsize::new(0);
@@ -1166,10 +1288,10 @@ fn run_conc_many(sc: &Scenario, iters: u64) -> BTreeMap<String, (Outcome, u64)> 
                         return;
                     }
                     my += 1;
-                    let (reg, log) = slot.lock().unwrap().clone().expect("registry published");
+                    let (reg, log, nested) = slot.lock().unwrap().clone().expect("registry published");
                     arrived.fetch_add(1, Ordering::AcqRel);
                     wait_until(|| arrived.load(Ordering::Acquire) >= n * my);
-                    let rs: Vec<RRes> = ops.iter().map(|op| Sys::apply_shared(&reg, &log, op)).collect();
+                    let rs: Vec<RRes> = ops.iter().map(|op| Sys::apply_shared(&reg, &log, &nested, false, op)).collect();
                     *results[k].lock().unwrap() = rs;
                     done.fetch_add(1, Ordering::AcqRel);
                 }
@@ -1180,7 +1302,7 @@ fn run_conc_many(sc: &Scenario, iters: u64) -> BTreeMap<String, (Outcome, u64)> 
             for op in &sc.setup {
                 let _ = sys.apply(op);
             }
-            *slot.lock().unwrap() = Some((Arc::clone(&sys.reg), Arc::clone(&sys.log)));
+            *slot.lock().unwrap() = Some((Arc::clone(&sys.reg), Arc::clone(&sys.log), Arc::clone(&sys.nested)));
             gen.store(it, Ordering::Release);
             wait_until(|| done.load(Ordering::Acquire) >= n * it);
             let rs: Vec<Vec<RRes>> = results.iter().map(|m| std::mem::take(&mut *m.lock().unwrap())).collect();
@@ -1332,14 +1454,22 @@ fn exec_conc(out: &mut Out, line: &str) {
 const TOKENS: &[&str] = &["a", "b", "c", "a", "b", "", "0", "1", "01", "+1", "-", "2", "00", "+0", "x/y", "m~n", "~", "/", "é", "k k", "18446744073709551615", "18446744073709551616", "-1", "+", "1e0", "++1",
     // literal keys whose escaped spellings are ~01, ~00, ~10, ~11, ~0~1, a~01b, ~1~0, ~001: the order of the two
     // unescape substitutions matters only on these
-    "~1", "~0", "/0", "/1", "~/", "a~1b", "/~", "~01", "~1", "/"];
+    "~1", "~0", "/0", "/1", "~/", "a~1b", "/~", "~01", "~1", "/",
+    // beyond the BMP, controls, long
+    "𝄞", "\u{1}", " ", "qqqqqqqqqqqqqqqqqqqqqqqqqqqqqqqqqqqqqqqqqqqqqqqqqqqqqqqqqqqqqqqqqqqqqqqqqqqqqqqq"];
 
 fn gen_value(r: &mut Rng, depth: u32) -> Value {
     let k = if depth == 0 { r.below(5) } else { r.below(9) };
     match k {
-        0 => json!(r.below(10)),
+        0 => match r.below(12) {
+            0 => json!(u64::MAX),
+            1 => json!(i64::MIN),
+            2 => json!(i64::MAX),
+            3 => json!(1u64 << 53),
+            _ => json!(r.below(10)),
+        },
         1 => json!(-(r.below(1000) as i64) - 1),
-        2 => Value::String((*r.pick(&["", "s", "h i", "é~/", "\"q\"\\", "0"])).to_string()),
+        2 => Value::String((*r.pick(&["", "s", "h i", "é~/", "\"q\"\\", "0", " s ", "\n", "\u{1}\u{7f}", "𝄞", "\u{feff}x", "null", "zzzzzzzzzzzzzzzzzzzzzzzzzzzzzzzzzzzzzzzzzzzzzzzzzzzzzzzzzzzzzzzzzzzzzzzzzzzzzzzzzzzzzzzzzzzzzzzzzzzzzzzzzzzzzzzzzzzzzzzzzzzzzzzz"])).to_string()),
         3 => json!(r.chance(1, 2)),
         4 => Value::Null,
         5 | 6 => {
@@ -1412,7 +1542,13 @@ impl SeqGen {
             self.pool.push(p.clone());
             p
         } else if k < 93 {
-            let p = gen_pointer(r, 4);
+            let p = if r.chance(1, 6) {
+                // deep: more reference tokens than any fixed-size segment buffer would hold
+                let d = r.range(15, 40);
+                (0..d).map(|_| format!("/{}", o_escape(r.pick(&["a", "b", "0", "x/y", ""])))).collect()
+            } else {
+                gen_pointer(r, 4)
+            };
             self.pool.push(p.clone());
             p
         } else if k < 95 {
@@ -1431,7 +1567,10 @@ fn gen_sequence(r: &mut Rng, k: &mut u64, ops: &mut Vec<String>, max_len: u64) {
         *k += 1;
     };
     next(ops, "reset".into());
-    let prefixes: Vec<String> = match r.below(6) {
+    let prefixes: Vec<String> = match r.below(9) {
+        6 => vec!["/".into(), "/api".into()],
+        7 => (0..r.range(1, 3)).map(|_| { let p = gen_pointer(r, 2); if r.chance(1, 3) { format!("{}/", p.trim_start_matches('/')) } else { p } }).collect(),
+        8 => vec!["/qqqqqqqqqqqqqqqqqqqqqqqqqqqqqqqqqqqqqqqqqqqqqqqqqqqqqqqqqqqqqqqq/𝄞".into(), "/a//".into()],
         0 => vec!["".into()],
         1 => vec!["/api".into()],
         2 => vec!["api/v1/".into(), "/api".into()],
@@ -1439,7 +1578,8 @@ fn gen_sequence(r: &mut Rng, k: &mut u64, ops: &mut Vec<String>, max_len: u64) {
         4 => vec!["/a".into(), "//".into()],
         _ => vec!["/é~/x".into(), "/b/".into()],
     };
-    next(ops, format!("router {}", prefixes.iter().map(|p| pword(p)).collect::<Vec<_>>().join(" ")));
+    next(ops, format!("router {} {} {}", if r.chance(1, 3) { "mw" } else { "bare" }, if r.chance(1, 2) { "with" } else { "reg" }, prefixes.iter().map(|p| pword(p)).collect::<Vec<_>>().join(" ")));
+    let mut tags: Vec<(u64, Option<u32>)> = Vec::new();
     let mut g = SeqGen { pool: (0..r.range(2, 4)).map(|_| gen_pointer(r, 3)).collect() };
     let n = r.range(5, max_len);
     let mut tag = 0u64;
@@ -1451,11 +1591,24 @@ fn gen_sequence(r: &mut Rng, k: &mut u64, ops: &mut Vec<String>, max_len: u64) {
                 OpR::RegV(p, gen_value(r, 2)).words()
             }
             14..=21 => {
-                tag += 1;
-                let fail = if r.chance(1, 5) { Some(*r.pick(&[4u32, 9, 4096])) } else { None };
+                let (t, fail) = if !tags.is_empty() && r.chance(1, 6) {
+                    // the same callable (same tag, same behaviour) registered again, possibly under another key
+                    *r.pick(&tags)
+                } else {
+                    tag += 1;
+                    let fail = match r.below(20) {
+                        0..=2 => Some(*r.pick(&[4u32, 9, 4096, 0, 6, 8])),
+                        3 => Some(*r.pick(&[1_000_001u32, 1_000_002, 1_000_003])),
+                        4 => Some(2_000_000),
+                        5 | 6 => Some(3_000_000),
+                        _ => None,
+                    };
+                    tags.push((tag, fail));
+                    (tag, fail)
+                };
                 let p = g.pointer(r);
                 let p = if r.chance(1, 8) { p.trim_start_matches('/').to_string() } else { p };
-                OpR::RegF(p, tag, fail).words()
+                OpR::RegF(p, t, fail).words()
             }
             22..=27 => OpR::MergeAt(g.pointer(r), gen_object(r)).words(),
             28..=30 => OpR::MergeRoot(gen_object(r)).words(),
@@ -1479,9 +1632,9 @@ fn gen_sequence(r: &mut Rng, k: &mut u64, ops: &mut Vec<String>, max_len: u64) {
                     6 => (*r.pick(&[0u16, 1, 3, 4, 999, 65535]), vec![]), // an empty body is a read whatever the format
                     7..=11 => (2, serde_json::to_vec(&v).unwrap()),
                     12 | 13 => (1, beve::to_vec(&v).unwrap_or_default()),
-                    14 => (3, r.pick(&["s", "h i", "é", "{\"a\":1}"]).as_bytes().to_vec()),
+                    14 => (3, r.pick(&["s", "h i", "é", "{\"a\":1}", " s ", "\n", "\u{feff}x", "\t", "𝄞"]).as_bytes().to_vec()),
                     15 => (3, vec![0x61, 0xff, 0xfe]), // not UTF-8
-                    16 => (0, vec![r.below(256) as u8, r.below(256) as u8]),
+                    16 => (0, (0..r.range(1, 5)).map(|_| *r.pick(&[0u8, 1, 127, 128, 255])).collect()),
                     17 => (2, b"{\"a\":".to_vec()), // truncated JSON
                     18 => (1, serde_json::to_vec(&v).unwrap()), // JSON text sent as BEVE
                     _ => (*r.pick(&[4u16, 999, 65535]), b"1".to_vec()),
@@ -1490,7 +1643,15 @@ fn gen_sequence(r: &mut Rng, k: &mut u64, ops: &mut Vec<String>, max_len: u64) {
                     1 | 2 | 3 if !bytes.is_empty() => dep_decode(fmt, &bytes).map(|v| render(&v)).unwrap_or("!".into()),
                     _ => "-".into(),
                 };
-                format!("req {} {} {} {}", pword(&path), fmt, hex(&bytes), dec)
+                // the message's query is normally the lookup path; sometimes another path, sometimes not UTF-8
+                let q = match r.below(12) {
+                    0 => "!".to_string(),
+                    1 => pword(&format!("{}{}", pre, g.pointer(r))),
+                    2 => pword(&g.pointer(r)),
+                    _ => "=".to_string(),
+                };
+                let hdr = format!("{}:{}:{}", *r.pick(&[0u64, 1, u64::MAX, 77]), *r.pick(&[0u64, 1, 255]), *r.pick(&[1u64, 0, 999]));
+                format!("req {} {} {} {} {} {} {}", pword(&path), q, r.below(3), hdr, fmt, hex(&bytes), dec)
             }
         };
         next(ops, op);
@@ -1572,7 +1733,7 @@ fn gen_scenario(r: &mut Rng, max_threads: u64, max_ops: u64) -> Scenario {
             0 | 1 => OpR::RegV(p, val(r)),
             2 => {
                 tag += 1;
-                OpR::RegF(if p.is_empty() { p2.clone() } else { p }, tag, None)
+                OpR::RegF(if p.is_empty() { p2.clone() } else { p }, tag, if r.chance(1, 4) { Some(2_000_000) } else { None })
             }
             3 => OpR::SetRoot(val(r)),
             4 => OpR::MergeAt(p, json!({ t2.clone(): r.below(5) })),
@@ -1598,10 +1759,42 @@ fn race_scenarios() -> Vec<Scenario> {
     ]
 }
 
+// watchdog: a single registry call that does not return within 20 s (a lock held across a callable that
+// calls back in) is reported as a failing input instead of hanging the run
+static OP_STARTED: std::sync::atomic::AtomicU64 = std::sync::atomic::AtomicU64::new(0);
+static CURRENT: Mutex<(String, Vec<String>)> = Mutex::new((String::new(), Vec::new()));
+
+fn now_ms() -> u64 {
+    std::time::SystemTime::now().duration_since(std::time::UNIX_EPOCH).unwrap().as_millis() as u64
+}
+
+fn start_watchdog(dir: std::path::PathBuf, family: String) {
+    std::thread::spawn(move || loop {
+        std::thread::sleep(std::time::Duration::from_millis(500));
+        let t0 = OP_STARTED.load(Ordering::SeqCst);
+        let limit = 20_000;
+        let _ = &family;
+        if t0 != 0 && now_ms().saturating_sub(t0) > limit {
+            let (line, mut trail) = CURRENT.lock().map(|g| g.clone()).unwrap_or_default();
+            trail.push(line.clone());
+            let v = json!({"sig": "registry.call.deadlock", "detail": format!("the registry did not answer within {} s: {}", limit / 1000, line), "ops": trail});
+            use std::io::Write as _;
+            if let Ok(mut f) = std::fs::OpenOptions::new().append(true).open(dir.join("oracle.txt")) {
+                let _ = writeln!(f, "{}", v);
+            }
+            std::process::exit(3);
+        }
+    });
+}
+
 fn main() {
     let args = Args::parse();
     let family = args.extra.first().cloned().unwrap_or_else(|| "seq".into());
+    if std::env::var("VERIF_LOUD").is_err() {
+        quiet_panics();
+    }
     let mut out = Out::new(&args.out);
+    start_watchdog(args.out.clone(), family.clone());
     let mut rng = Rng::new(args.seed);
     let thorough = args.thorough();
     let ops: Vec<String> = if let Some(ops) = args.replay_ops() {
@@ -1637,25 +1830,36 @@ fn main() {
         }
         ops
     };
-    let mut ctx = Ctx { sys: Sys::new(), prefixes: vec![], router: None, trail: vec![] };
+    let mut ctx = Ctx { sys: Sys::new(), prefixes: vec![], router: None, trail: vec![], pending_lines: vec![] };
     for line in ops {
         let line = match line.split_once(" => ") {
             Some((a, _)) => a.to_string(),
             None => line,
         };
         out.begin(&line);
+        *CURRENT.lock().unwrap() = (line.clone(), ctx.trail.clone());
         let name = line.split(' ').next().unwrap_or("");
+        // the watchdog times single registry calls, not the composite lines (an enumeration, a race loop)
+        OP_STARTED.store(if name == "enum" || name == "conc" { 0 } else { now_ms() }, Ordering::SeqCst);
         match name {
             "conc" => exec_conc(&mut out, &line),
             "enum" => {
                 let obs = exec_enum(&mut out, &line);
                 out.case(&line, &obs, true);
             }
-            _ => match exec_seq(&mut out, &mut ctx, &line) {
-                Some((obs, nt)) => out.case(&line, &obs, nt),
-                None => out.config(&line),
-            },
+            "nregv" => {} // derived line of an earlier run (a re-entrant callable's nested call): re-derived, not executed
+            _ => {
+                match exec_seq(&mut out, &mut ctx, &line) {
+                    Some((obs, nt)) => out.case(&line, &obs, nt),
+                    None => out.config(&line),
+                }
+                for (l, o) in std::mem::take(&mut ctx.pending_lines) {
+                    ctx.trail.push(l.clone());
+                    out.case(&l, &o, true);
+                }
+            }
         }
+        OP_STARTED.store(0, Ordering::SeqCst);
     }
     out.finish();
 }
